@@ -174,7 +174,9 @@ func NewScheduler(executor Executor, checkpointer SchedulableService, opts ...tr
 					}
 					it := min.(Item)
 					if ts := s.time.Now().UTC(); it.When().After(ts) {
-						s.timer.Reset(ts.Sub(it.When()))
+						// wait for the item that is now first, the one the timer was set for is gone
+						s.when = it.When()
+						s.timer.Reset(it.When().Sub(ts))
 						s.mu.Unlock()
 						continue schedulerLoop
 					}
